@@ -12,6 +12,7 @@
    kind and meta), [sibuniq_f] (C03: no two siblings with one data_id). *)
 From Coq Require Import List ZArith Bool.
 From NT Require Import Sx Rose DictList DictListProofs CaseC14 CaseC14Facts.
+From NTGen Require Import Generated.
 Import ListNotations.
 
 (* ---- to_dict_list mirrors the tree ------------------------------------ *)
@@ -69,6 +70,17 @@ Theorem C14_harness_mappers : forall tbl,
 Proof. exact (fun tbl => conj (sm_set_ok tbl) (conj (sm_wrap_ok tbl) (conj (sm_new_keep_ok tbl) (sm_new_drop_not_ok tbl)))). Qed.
 Print Assumptions C14_harness_mappers.
 
+(* the keys written by Node.to_dict and read by Node.from_dict in /repo (lifted
+   from the source text by gen_facts.py on every run) are the keys of the model,
+   and the source's data_id test is [self._data_id != hash(self._data)];
+   from_dict's optional "node_id" entry is never written by to_dict *)
+Theorem C14_source_keys :
+  TO_DICT_KEYS = [k_data; k_data_id; k_children] /\
+  FROM_DICT_KEYS = [k_data; k_data_id; k_node_id; k_children] /\
+  TO_DICT_ID_TEST_IS_NE_HASH = true.
+Proof. exact source_keys_ok. Qed.
+Print Assumptions C14_source_keys.
+
 (* ---- round trip ------------------------------------------------------- *)
 
 (* from_dict(to_dict_list(t)) succeeds and rebuilds the same tree up to node
@@ -117,6 +129,17 @@ Theorem C14_from_dict_safe : forall (dd : dmapper) (calc : info -> did) (next : 
   from_dict dd calc next obj = inl f -> sibuniq_f f.
 Proof. exact from_dict_safe. Qed.
 Print Assumptions C14_from_dict_safe.
+
+(* which inputs are refused: for inputs whose items are all well formed (data
+   readable, data_id entry usable), from_dict succeeds iff no two sibling items
+   have one effective id (the data_id entry or, without one, calc_data_id of the
+   data), and the only error it can raise is UniqueConstraintError *)
+Theorem C14_from_dict_refusal : forall (dd : dmapper) (calc : info -> did) (next : nat) (obj : list jv),
+  Forall (wf_pt dd calc) (map parse obj) ->
+  ((exists f, from_dict dd calc next obj = inl f) <-> uniq_items dd calc obj) /\
+  (forall e, from_dict dd calc next obj = inr e -> e = E_UNIQUE).
+Proof. exact from_dict_refusal. Qed.
+Print Assumptions C14_from_dict_refusal.
 
 (* ---- non-vacuity and necessity of the hypotheses ----------------------- *)
 
